@@ -213,7 +213,21 @@ fn client(d: Arc<dyn Drv>, h: HCfg, tid: u8, ids: Arc<AtomicU64>, clears: Arc<(A
                 let write = if op == OP_GET_MUT_WRITE { Some(ids.fetch_add(1, Ordering::SeqCst)) } else { None };
                 rec.id = write.unwrap_or(0);
                 rec.call = seq::next();
-                let got = if op == OP_GET { d.get(key) } else { d.get_mut(key, write) };
+                // one look-up in eight keeps its guard (ValueRef / ValueRefMut: the shard lock) alive for a
+                // while, so that clear(), cleanup, eviction and other clients meet a held shard lock
+                let got = if op != OP_GET_MUT_WRITE && h.mode == "mixed" && rng.chance(1, 8) {
+                    let spin_us = rng.range(20, 400);
+                    d.get_hold(key, op == OP_GET_MUT, &move || {
+                        let t0 = std::time::Instant::now();
+                        while (t0.elapsed().as_micros() as u64) < spin_us {
+                            std::hint::spin_loop();
+                        }
+                    })
+                } else if op == OP_GET {
+                    d.get(key)
+                } else {
+                    d.get_mut(key, write)
+                };
                 rec.ret = seq::next();
                 if let Some(s) = got {
                     rec.hit = true;
@@ -667,40 +681,19 @@ pub fn check_history(hist: &Hist, rep: &mut Report) {
     }
 
     // ---------------------------------------------------------------- C01: cost of what is really resident
-    // (internal cost is ignored in hostile histories, so an entry costs what its insert said)
+    // An entry that is resident but not charged at all still occupies the cache: it counts with the cost
+    // its insert gave (internal cost is ignored in hostile histories). Entries the policy does charge
+    // count with that charge: when writers of one key overlap, the charge may legitimately be that of
+    // another write than the resident value's (store swap and queued cost update are not atomic; C16's
+    // statement exempts it), and in-place updates may lift `used` itself above max_cost.
     if !ops.iter().any(|o| o.op == OP_MAXCOST) && hist.h.vld_mode == 0 {
         let cost_of: HashMap<u64, i64> = ops.iter().filter(|o| matches!(o.op, OP_INSERT | OP_IF_PRESENT)).map(|o| (o.id, o.cost)).collect();
-        let resident_cost: i64 = hist.snap.store.iter().map(|e| cost_of.get(&e.tag).copied().unwrap_or(0)).sum();
-        // in-place updates may push the total over max_cost until the next admission: each resident value
-        // written in place may cost more than the admitted value at the start of its chain of updates
-        // (followed through the values each update handed to on_exit); that difference is the slack
-        let writer_of: HashMap<u64, &OpRec> = ops.iter().filter(|o| matches!(o.op, OP_INSERT | OP_IF_PRESENT) && o.id != 0).map(|o| (o.id, o)).collect();
-        let mut update_slack: i64 = 0;
-        for e in hist.snap.store.iter() {
-            let Some(w) = writer_of.get(&e.tag) else { continue };
-            if !w.update_path {
-                continue;
-            }
-            let mut cur = *w;
-            let mut admitted_cost: Option<i64> = None;
-            for _ in 0..100_000 {
-                match writer_of.get(&cur.exited_id) {
-                    Some(prev) if prev.update_path => cur = *prev,
-                    Some(prev) => {
-                        admitted_cost = Some(prev.cost);
-                        break;
-                    }
-                    None => break,
-                }
-            }
-            update_slack += match admitted_cost {
-                Some(a) => (w.cost - a).max(0),
-                None => w.cost, // chain lost (in-place write through get_mut, unknown ancestor): allow the whole cost
-            };
-        }
+        let uncharged: Vec<(u64, i64)> = hist.snap.store.iter().filter(|e| !policy.contains_key(&e.index)).map(|e| (e.index, cost_of.get(&e.tag).copied().unwrap_or(0))).collect();
+        let uncharged_cost: i64 = uncharged.iter().map(|e| e.1).sum();
         rep.count("ho_c01_resident_cost_checks");
-        if resident_cost > hist.h.cfg.max_cost + update_slack {
-            rep.violate("C01", "resident-cost/over-max", format!("at quiescence the resident entries cost {resident_cost} in total, max_cost is {} (the policy says used = {})", hist.h.cfg.max_cost, hist.snap.used), json!({"history": d, "resident": hist.snap.store.iter().map(|e| (e.index, cost_of.get(&e.tag).copied().unwrap_or(0))).collect::<Vec<_>>(), "policy": hist.snap.costs}));
+        if uncharged_cost > 0 && hist.snap.used as i128 + uncharged_cost as i128 > hist.h.cfg.max_cost as i128 {
+            rep.violate("C01", "resident-cost/over-max", format!("at quiescence the policy charges {} (max_cost {}), and the entries {:?} (index, cost) are resident without being charged: what is resident costs {} in total", hist.snap.used, hist.h.cfg.max_cost, uncharged, hist.snap.used as i128 + uncharged_cost as i128),
+                json!({"history": d, "resident_uncharged": uncharged, "policy": hist.snap.costs, "used": hist.snap.used}));
         }
     }
 
